@@ -311,6 +311,10 @@ pub fn run(ctx: &Ctx) -> i32 {
         let opts = vec![k(&[1, 0]), k(&[0, 3]), k(&[3, 1])];
         explore(ctx, "FLOW deep 12 slots x 4", Layered { slots: alpha::flow_slots(2, &opts, Rich::Wide), bases: alpha::bases(false) }, C01, shared.clone());
     }
+    {
+        let n = if ctx.quick() { 14 } else { 16 };
+        explore(ctx, &format!("COMBO: complete 12-step buildings, {n} subsystems absent/present"), Layered { slots: alpha::combo_slots(n), bases: alpha::bases(false) }, C01, shared.clone());
+    }
     explore(ctx, "seeded: shipped files + <=2 lines", Wide { alphabet: alpha::seeded_letters(), bases: alpha::shipped_bases(), max_add: if ctx.quick() { 1 } else { 2 }, repeat: false }, C01, shared.clone());
     finish(
         ctx,
